@@ -161,6 +161,9 @@ def check(tier: str) -> Result:
     # ---- R9: border tests inside mask / validity functions are exact and decisive (rules/bounds_rules.py)
     from . import bounds_rules
     n_bd = bounds_rules.add_obligations(res, tree, "C04.R9", scope="mask")
+    # ---- R10: an entity that is already used (packed, visited, placed) is never offered by the mask (rules/used_rules.py)
+    from . import used_rules
+    n_used = used_rules.add_obligations(res, tree, "C04.R10")
     res.analysed = {"environments_with_mask": mask_envs, "step_consults_state_mask": reads_mask, "mask_vs_validity": r3b,
                     "axis_typed_sites": n_axis, "table_pairings": n_tab, "paired_reset_step_mask_call_arguments": n_pc}
     res.assumptions = ["records are not aliased across names inside step", "exceptions: none"]
